@@ -234,13 +234,17 @@ class BodyGen:
         k = r.wpick([('cmp', 6), ('logic', 2 if self.has('logic_cond') else 0), ('expr', 1), ('not', 1 if self.has('logic_cond') else 0)])
         if k == 'cmp':
             t = r.pick([INT, INT, FLOAT])
-            return '%s %s %s' % (self.operand(t, 1), r.pick(['==', '!=', '<', '<=', '>', '>=']), self.operand(t, 1))
+            lhs = self.operand(t, 1)
+            if getattr(self.env, 'nonconst_conds', False) and self.vars_of(t):
+                lhs = self.read_var(t)      # every comparison reads at least one variable: nothing for the constant folder to decide
+            return '%s %s %s' % (lhs, r.pick(['==', '!=', '<', '<=', '>', '>=']), self.operand(t, 1))
         if k == 'logic':
             self.use('logic_cond')
             return '(%s) %s (%s)' % (self._cond(), r.pick(['&&', '||']), self._cond())
         if k == 'not':
             self.use('logic_cond')
             return '!(%s)' % self._cond()
+        if getattr(self.env, 'nonconst_conds', False) and self.vars_of(INT): return self.read_var(INT)
         return self.expr(INT, 1)
 
     # ------------------------------------------------------------------ statements
@@ -509,3 +513,102 @@ class BodyGen:
 
 def gen_body(rng, env, sentinel=None, **kw):
     return BodyGen(rng, env, **kw).generate(sentinel)
+
+
+# =====================================================================================================
+# G-stream: flat label/goto programs with arbitrary jump graphs (not derivable from structured source)
+
+class Stream:
+    def __init__(self):
+        self.text = ''
+        self.used = set()
+        self.shape = []
+        self.mentioned = set()
+        self.count_regs = set()
+        self.njumps = 0
+        self.nback = 0
+
+
+def gen_stream(rng, env, counters, n_slots=12, feats=()):
+    """counters: [(text, regid)] int registers reserved as back-jump counters (initialised to 0 by the program)."""
+    r = rng
+    st = Stream()
+    F = set(feats)
+    nlabels = r.randint(1, max(1, n_slots // 3))
+    # decide label positions among slots
+    slots = [None] * n_slots
+    label_pos = sorted(r.sample(range(n_slots), min(nlabels, n_slots)))
+    for k, p in enumerate(label_pos): slots[p] = ('label', 'L%d' % k)
+    labels = {('L%d' % k): p for k, p in enumerate(label_pos)}
+    ivars = [v for v in env.int_vars if v[1] not in {c[1] for c in counters}]
+    fvars = list(env.float_vars)
+    def iatom():
+        if ivars and r.chance(0.6):
+            t, g = r.pick(ivars); st.mentioned.add(g); return t
+        return str(r.randint(0, 9))
+    def fatom():
+        if fvars and r.chance(0.6):
+            t, g = r.pick(fvars); st.mentioned.add(g); return t
+        return repr(r.randint(0, 80) / 10.0)
+    def ivar():
+        t, g = r.pick(ivars); st.mentioned.add(g); return t
+    def cond():
+        # always reads a variable (constant conditions would be re-folded differently per form on recompilation)
+        if r.chance(0.75) or not fvars: return '%s %s %s' % (ivar(), r.pick(['==', '!=', '<', '<=', '>', '>=']), iatom())
+        t, g = r.pick(fvars); st.mentioned.add(g)
+        return '%s %s %s' % (t, r.pick(['<', '>', '<=', '>=']), fatom())
+    free_counters = list(counters)
+    out = []
+    for c, g in counters:
+        out.append('%s = 0;' % c); st.mentioned.add(g)
+    for i in range(n_slots):
+        if slots[i] is not None:
+            out.append('%s:' % slots[i][1]); st.shape.append('L'); continue
+        k = r.wpick([('call', 4), ('assign', 2), ('fwd', 2), ('cfwd', 2.5), ('back', 2), ('cback', 1.5), ('time', 2 if 'timelabels' in F else 0),
+                     ('interrupt', 0.6 if 'interrupt' in F else 0), ('countback', 1.2 if 'countjump' in F else 0)])
+        later = [l for l, p in labels.items() if p > i]
+        earlier = [l for l, p in labels.items() if p < i]
+        tsuffix = (' @ %d' % r.randint(0, 40)) if ('goto_time' in F and r.chance(0.2)) else ''
+        if tsuffix: st.used.add('goto_time')
+        if k == 'call':
+            name, op, sig = r.pick(env.calls)
+            out.append('%s(%s);' % (name, ', '.join(iatom() if ch == 'S' else fatom() for ch in sig)))
+        elif k == 'assign':
+            if ivars and r.chance(0.6):
+                t, g = r.pick(ivars); st.mentioned.add(g)
+                out.append('%s %s %s;' % (t, r.pick(['=', '+=', '-=']), iatom()))
+            elif fvars:
+                t, g = r.pick(fvars); st.mentioned.add(g)
+                out.append('%s = %s;' % (t, fatom()))
+            else: k = 'call'; out.append('nop();')
+        elif k == 'fwd' and later:
+            out.append('goto %s%s;' % (r.pick(later), tsuffix)); st.njumps += 1
+        elif k == 'cfwd' and later:
+            out.append('%s (%s) goto %s%s;' % ('unless' if r.chance(0.3) else 'if', cond(), r.pick(later), tsuffix)); st.njumps += 1
+        elif k in ('back', 'cback') and earlier and free_counters:
+            c, g = free_counters.pop()
+            lim = r.pick([1, 2, 3])
+            out.append('%s += 1;' % c)
+            if k == 'cback' or True:
+                # every backward jump is guarded by its own monotone counter, so every program terminates
+                extra = (' && (%s)' % cond()) if (k == 'cback' and 'logic_cond' in F) else ''
+                out.append('if ((%s < %d)%s) goto %s%s;' % (c, lim, extra, r.pick(earlier), tsuffix))
+            st.njumps += 1; st.nback += 1
+        elif k == 'countback' and earlier and free_counters:
+            # `if (--c) goto L` flavour: c is set right before the target label is impossible here, so guard with a preset
+            c, g = free_counters.pop()
+            form = env.count_form % c
+            # preset the counter at the very top (appended to the prologue)
+            out.insert(len(counters), '%s = %d;' % (c, r.pick([1, 2, 3])))
+            out.append('if (%s) goto %s%s;' % (form, r.pick(earlier), tsuffix))
+            st.njumps += 1; st.nback += 1; st.used.add('countjump')
+        elif k == 'time':
+            out.append('+%d:' % r.randint(0, 9)); st.used.add('timelabels')
+        elif k == 'interrupt':
+            out.append('interrupt[%d]:' % r.randint(1, 5)); st.used.add('interrupt')
+        else:
+            out.append('nop();'); k = 'call'
+        st.shape.append(k)
+    out.append('ins_101();')
+    st.text = '{\n' + '\n'.join(out) + '\n}'
+    return st
